@@ -67,10 +67,22 @@ func (s *Session) VerifConns() (conns []*ClientConn) {
 }
 
 // VerifSetPlanCounter presets the round-robin counter used for the next query plan.
-func VerifSetPlanCounter(lb LoadBalancer, n uint32) bool {
+func VerifSetPlanCounter(lb LoadBalancer, n uint64) bool {
 	if rr, ok := lb.(*roundRobinLoadBalancer); ok {
-		atomic.StoreUint32(&rr.index, n)
-		return true
+		return verifStoreCounter(&rr.index, n)
 	}
 	return false
+}
+
+// verifStoreCounter stores n whatever the width of the counter is.
+func verifStoreCounter(counter interface{}, n uint64) bool {
+	switch p := counter.(type) {
+	case *uint32:
+		atomic.StoreUint32(p, uint32(n))
+	case *uint64:
+		atomic.StoreUint64(p, n)
+	default:
+		return false
+	}
+	return true
 }
